@@ -996,12 +996,15 @@ var byteAdvanceCallers = map[string]string{
 	"scanIdentifier": "the text removed consists of characters accepted by isLetter / isDigit / '_' (ASCII classes): bytes = characters",
 	"scanNumber":     "the text removed consists of digits, '.', exponent / hex letters and signs (ASCII): bytes = characters",
 	"skipComment":    "a short comment runs to the end of its line: nothing on that line is located after it, and the line start is re-based on the cursor at the line break",
-	"scanShortString": "error paths of an unfinished string: the string runs to the end of the line / of the input, nothing on that line is located after it",
-	"scanLongString":  "invalid delimiter (the `=` run: ASCII) and the unfinished long string that runs to the end of the input; the terminated string uses the character-counting advance",
+	"scanLongString": "invalid delimiter (the `=` run: ASCII); the terminated and the unfinished string use the character-counting advance",
 }
 
+// (Two earlier entries are gone: the error paths of an unfinished short string and of an unfinished long string had been
+// accepted because "nothing on that line is located after it" — the error itself is, and was misplaced; both are repaired
+// in the target, daeaadd and 0864fcf, and use nextChars now.)
+
 // number of reviewed byte-advance call sites per function (one more = a new, unreviewed site)
-var byteAdvanceCount = map[string]int{"scanIdentifier": 1, "scanNumber": 1, "skipComment": 1, "scanShortString": 3, "scanLongString": 2}
+var byteAdvanceCount = map[string]int{"scanIdentifier": 1, "scanNumber": 1, "skipComment": 1, "scanLongString": 1}
 
 var ruleCursor = &Rule{
 	Name:    "LOC/cursor-coherence",
@@ -1316,6 +1319,7 @@ var ruleLineStart = &Rule{
 		nArith := 0
 		_ = nArith
 		nUnits := 0
+		nCols := 0
 		for _, f := range c.ModFns() {
 			if f.Pkg == nil || f.Pkg.Pkg.Path() != lexerPkgPath {
 				continue
@@ -1328,6 +1332,56 @@ var ruleLineStart = &Rule{
 						continue
 					}
 					fa, ok := st.Addr.(*ssa.FieldAddr)
+					if ok && (fieldOf(fa).Name() == "StartColumn" || fieldOf(fa).Name() == "EndColumn") && namedName(fa.X.Type()) == "Location" {
+						// a column of a location built in the lexer is a character count too: no byte offset into the input, no
+						// byte length of input text may be added to it
+						if bo, isB := st.Val.(*ssa.BinOp); isB && (bo.Op == token.ADD || bo.Op == token.SUB) {
+							nCols++
+							ckey := fmt.Sprintf("LOC/line-start:%s:column:%s", f.Name(), fieldOf(fa).Name())
+							why := ""
+							var terms []ssa.Value
+							var flat func(v ssa.Value, d int)
+							flat = func(v ssa.Value, d int) {
+								if b2, ok := v.(*ssa.BinOp); ok && d < 4 && (b2.Op == token.ADD || b2.Op == token.SUB) {
+									flat(b2.X, d+1)
+									flat(b2.Y, d+1)
+									return
+								}
+								terms = append(terms, v)
+							}
+							flat(st.Val, 0)
+							for _, x := range terms {
+								if off, isOff := byteOffsetIntoChunk(f, x); isOff {
+									why = off + " (a byte offset into the input: it is used to index the input)"
+								}
+								// a parameter of a private helper: what its callers pass
+								if pm, isP := x.(*ssa.Parameter); isP {
+									if sites, closed := closedCallSites(c, f); closed {
+										pi := paramIndex(f, pm)
+										for _, cs := range sites {
+											if pi >= 0 && pi < len(cs.Call.Args) {
+												if off, isOff := byteOffsetIntoChunk(cs.Parent(), cs.Call.Args[pi]); isOff {
+													why = "its parameter " + pm.Name() + ", for which " + cs.Parent().Name() + " passes " + off + " (a byte offset into the input)"
+												}
+											}
+										}
+									}
+								}
+							}
+							for _, t := range byteLengthTerms(st.Val) {
+								why = t.what + " of " + t.desc + " (bytes)"
+							}
+							if why == "" {
+								obs = append(obs, Ob{Key: ckey, Site: c.Pos(st.Pos()), Verdict: OK})
+							} else if rv, ok := reviewedColumnSums[f.Name()]; ok {
+								obs = append(obs, Ob{Key: ckey, Site: c.Pos(st.Pos()), Verdict: OK, Note: "reviewed: " + rv})
+							} else {
+								obs = append(obs, Ob{Key: ckey, Site: c.Pos(st.Pos()), Verdict: VIOLATION,
+									Note: f.Name() + " computes a column (characters) from " + why + ": with multi-byte characters in the text the location lies beyond its line"})
+							}
+						}
+						continue
+					}
 					if !ok || fieldOf(fa).Name() != "lineStartPos" || namedName(fa.X.Type()) != "Lexer" {
 						continue
 					}
@@ -1403,6 +1457,7 @@ var ruleLineStart = &Rule{
 		}
 		obs = append(obs, floor("LOC/line-start", "assignments lineStartPos = currentPos", n, 2))
 		c.Stats["line_start_byte_length_terms"] = nUnits
+		c.Stats["lexer_column_sums"] = nCols
 		return obs
 	},
 }
@@ -1674,4 +1729,11 @@ func byteLengthTerms(v ssa.Value) []byteTerm {
 	}
 	walk(v, 0)
 	return out
+}
+
+
+// reviewed: column sums in the lexer that add a byte offset (function: reason)
+var reviewedColumnSums = map[string]string{
+	"escapeErrLoc": "hazard without a failing input: the location of an escape-sequence error adds the byte offset inside the string to a character column, but both calls in readEscapeSequence are dead — scanShortString returns on i >= len(chunk) before it calls readEscapeSequence, so getIndexChar(*i) cannot fail at its entry, and consumeEOL cannot answer false in the arm that has just matched '\\n' / '\\r'",
+	"readEscapeSequence": "the same two dead error paths with the location computed inline (see escapeErrLoc)",
 }
